@@ -16,8 +16,7 @@ Reading guide
 * `payload_determined_by_tree`— two accepted payloads with the same tree are the same bytes.
 * `payload_hash_binds`        — END-TO-END: two different accepted payloads of one type with the same identifier
                                 (root or any enclosing one) give a collision of `H`.
-* `noncanonical_rejected_*`   — over-limit size, wrong prefix / enum kind / discriminator / field count, trailing
-                                bytes that keep the content, over-limit array counts.
+* `noncanonical_rejected_*`   — over-limit size; wrong prefix / enum kind / discriminator / field count; trailing bytes.
 -/
 import RadixModel.Model.TxHash
 import RadixModel.Lemmas.TxHash
@@ -214,17 +213,100 @@ theorem noncanonical_rejected_framing (S : Settings) (k k' : Kind) (payload : By
     rw [hp, canonicalPayload, ht, hk]
     simp [unparseB]
 
-/-- Trailing bytes cannot be added without changing the content: if a payload and an extension of it are
-both accepted as the same type with the same tree, the extension is empty. (That the extended payload is in
-fact *rejected* is the `ExtraTrailingBytes` branch of `prepare`; it is exercised against the real code by the
-`trailing` oracle and the correspondence stream.) -/
-theorem noncanonical_rejected_trailing_partial (S : Settings) (k k' : Kind) (payload extra : Bytes) (r r' : Prep)
-    (h : prepare S k payload = .ok (k', r)) (h' : prepare S k (payload ++ extra) = .ok (k', r'))
-    (ht : r'.tree = r.tree) : extra = [] := by
-  have := payload_determined_by_tree S S k k k' _ _ r' r h' h ht
-  have hl := congrArg List.length this
-  simp at hl
-  exact hl
+theorem prepEnum_ext (S : Settings) (rem : Nat) (s : Sch) : Ext (prepEnum S rem s) := by
+  intro bs p rest x h
+  cases s with
+  | payload d fs =>
+    simp only [prepEnum] at h ⊢
+    split at h
+    · simp at h
+    · rename_i rem'
+      try simp only
+      split at h
+      · simp at h
+      · rename_i bs0 hk
+        rw [readKindExpect_ext _ _ _ x hk]
+        try simp only
+        split at h
+        · simp at h
+        · rename_i dd bs1 hb
+          cases bs0 with
+          | nil => simp [readByte] at hb
+          | cons b t =>
+            simp [readByte] at hb
+            obtain ⟨rfl, rfl⟩ := hb
+            simp only [readByte, List.cons_append]
+            split at h
+            · simp at h
+            · rename_i hdd
+              simp only [hdd, if_false]
+              have hv : ∀ s, Ext (prepV S rem' s) := prepVWith_ext _ _ (prepB_ext S rem')
+              exact tupleRest_ext _ hv _ _ _ _ _ x h
+  | full => simp [prepEnum] at h
+  | body vk => simp [prepEnum] at h
+  | blob => simp [prepEnum] at h
+  | rawHash => simp [prepEnum] at h
+  | core fs => simp [prepEnum] at h
+  | arr a b c d e => simp [prepEnum] at h
+
+theorem resolveKind_ext (k k' : Kind) (bs x : Bytes) (h : resolveKind k bs = .ok k') :
+    resolveKind k (bs ++ x) = .ok k' := by
+  cases k <;> simp only [resolveKind] at h ⊢ <;> try exact h
+  cases bs with
+  | nil => simp at h
+  | cons a t =>
+    cases t with
+    | nil => simp at h
+    | cons d t' => simpa using h
+
+/-- **noncanonical_rejected_trailing.** A payload that is accepted is never accepted again with bytes
+appended: every reader of the preparation ignores what follows the bytes it consumed (`Ext`), so the
+extended payload is decoded to the same point and then fails `check_complete` (`ExtraTrailingBytes`), unless
+the size limit rejects it first. -/
+theorem noncanonical_rejected_trailing (S : Settings) (k k' : Kind) (payload extra : Bytes) (r : Prep)
+    (h : prepare S k payload = .ok (k', r)) (hx : extra ≠ []) :
+    prepare S k (payload ++ extra) = .error .decode ∨ prepare S k (payload ++ extra) = .error .tooLarge := by
+  unfold prepare at h
+  split at h
+  · simp at h
+  · split at h
+    · simp at h
+    · rename_i p bs hp
+      split at h
+      · simp at h
+      · rename_i hpp
+        split at h
+        · simp at h
+        · rename_i k'' hres
+          split at h
+          · simp at h
+          · rename_i r' rest hprep
+            split at h
+            · simp at h
+            · rename_i hrest
+              simp at hrest
+              subst hrest
+              cases payload with
+              | nil => simp [readByte] at hp
+              | cons b t =>
+                simp [readByte] at hp
+                obtain ⟨rfl, rfl⟩ := hp
+                unfold prepare
+                split
+                · exact Or.inr rfl
+                · left
+                  simp only [List.cons_append, readByte, hpp, if_false]
+                  rw [resolveKind_ext _ _ _ extra hres]
+                  try simp only
+                  rw [prepEnum_ext S D _ _ _ _ extra hprep]
+                  simp [hx]
+
+/-- Consequence in the form used by the oracle: the accepted payloads of one type are prefix free. -/
+theorem accepted_prefix_free (S : Settings) (k k1 k2 : Kind) (payload extra : Bytes) (r1 r2 : Prep)
+    (h1 : prepare S k payload = .ok (k1, r1)) (h2 : prepare S k (payload ++ extra) = .ok (k2, r2)) : extra = [] := by
+  apply Classical.byContradiction
+  intro hx
+  rcases noncanonical_rejected_trailing S k k1 payload extra r1 h1 hx with h | h <;> rw [h] at h2 <;> simp at h2
 
 /-- `prepare` only succeeds after `check_complete`: nothing of the payload is left unread. Together with
 `reencode_same_bytes` (the bytes read are the canonical encoding) this is the no-trailing-bytes rule. -/
